@@ -12,6 +12,7 @@
 -/
 import Hy.Proofs.Reconnect
 import Hy.Gen.Core
+import Hy.Gen.App
 set_option linter.unusedSimpArgs false
 set_option linter.unusedVariables false
 namespace Hy.Props.C16
@@ -34,6 +35,68 @@ theorem gen_count : Gen.c16_count_incr_sites = 1 ∧ Gen.c16_count_incr_in_recon
     (`FRes.recoverable`; false on the pinned tree: defect D4b), every other error becomes ClosedError. -/
 theorem gen_classification : Gen.c16_streamlimit_unwrapped = 1 ∧ Gen.c16_other_errors_wrapped_closed = 1 := by decide
 theorem gen_parsed : Gen.c16_shape_parsed = 1 := by decide
+
+/-- connect() of core/client/client.go, read with go/ast on every run: for each `return` in source
+    order, the kind of error it returns (1 = the factory's error, 2 = ConnectError, 3 = AuthError,
+    4 = nil) and the Close calls that precede it ON ITS PATH (1 conn unconditionally, 8 conn under
+    `conn != nil`, 2 tr, 4 pktConn; +100 per resource closed twice). The expected table is not
+    written down here: it is what a RUN of the model `Hy.Connect.connect` closes on that exit, with
+    the guard evaluated for the path on which DialEarly failed (conn = nil) and on which it had
+    succeeded. The RoundTrip-error return must not close conn unconditionally (conn may be nil). -/
+theorem gen_connect_exits :
+    Gen.c16_connect_returns = 4 ∧
+    Gen.c16_connect_ret0_kind = 1 ∧ Gen.c16_connect_ret0_mask = Connect.modelMask .factoryErr ∧
+    Gen.c16_connect_ret1_kind = 2 ∧ Gen.c16_connect_ret1_mask < 16 ∧ Gen.c16_connect_ret1_mask % 2 = 0 ∧
+    Connect.applyGuard Gen.c16_connect_ret1_mask false = Connect.modelMask .dialErr ∧
+    Connect.applyGuard Gen.c16_connect_ret1_mask true = Connect.modelMask .roundTripErr ∧
+    Gen.c16_connect_ret2_kind = 3 ∧ Gen.c16_connect_ret2_mask < 16 ∧
+    Connect.applyGuard Gen.c16_connect_ret2_mask true = Connect.modelMask .authErr ∧
+    Gen.c16_connect_ret3_kind = 4 ∧ Gen.c16_connect_ret3_mask = Connect.modelMask .ok ∧
+    Gen.c16_connect_success_assigns = 7 := by decide
+/-- clientImpl.Close closes conn, tr, pktConn (in this order, each once); NewClient returns no client
+    when connect failed. -/
+theorem gen_client_close : Gen.c16_clientClose_mask = 7 ∧ Gen.c16_clientClose_order = 123 ∧
+    Gen.c16_newclient_err_returns_nil = 1 := by decide
+/-- app/cmd/client.go: the function handed to NewReconnectableClient is the method value
+    `config.Config` (not a closure over an already built *client.Config); Config() builds a fresh
+    client.Config and runs fillServerAddr, which resolves the configured server string (plain and
+    port-hopping form) on every call and stores nothing on the receiver. The dynamic side is the
+    stream `c16cfg` (a fake DNS server whose answer changes between evaluations). -/
+theorem gen_app_config_fresh : Gen.c16_app_parsed = 1 ∧ Gen.c16_app_configfunc_is_method_value = 1 ∧ Gen.c16_app_config_allocates_fresh = 1 ∧
+    Gen.c16_app_fillServerAddr_resolves = 1 ∧ Gen.c16_app_fillServerAddr_stores_nothing = 1 := by decide
+
+/-! ### connect() and clientImpl.Close as programs over (packet conn, transport, QUIC conn) -/
+
+/-- On EVERY failing exit of connect() each resource acquired so far is closed exactly once, no
+    Close goes through a nil pointer, nothing is left held, and NewClient returns no client. -/
+theorem connect_failure_releases_everything (e : Connect.Exit) (he : e ≠ .ok) :
+    let r := (Connect.connect e).1
+    (Connect.connect e).2 ≠ .ok ∧ r.nilDeref = false ∧
+    r.pkt.once = true ∧ r.tr.once = true ∧ r.conn.once = true ∧ Connect.held r = false ∧
+    (Connect.newClient true e).2.2 = false := by
+  cases e <;> first | exact absurd rfl he | decide
+
+/-- which resources each failing exit had acquired (so "closed exactly once" is not vacuous) -/
+theorem connect_acquires :
+    (Connect.connect .factoryErr).1 = {} ∧
+    (Connect.connect .dialErr).1 = { pkt := some 1, tr := some 1, conn := none } ∧
+    (Connect.connect .roundTripErr).1 = { pkt := some 1, tr := some 1, conn := some 1 } ∧
+    (Connect.connect .authErr).1 = { pkt := some 1, tr := some 1, conn := some 1 } := by decide
+
+/-- an invalid configuration is rejected before anything is acquired -/
+theorem newClient_bad_config (e : Connect.Exit) : Connect.newClient false e = ({}, .cfgErr, false) := rfl
+
+/-- On success the client owns all three resources, none of them closed, and is returned. -/
+theorem connect_success_owns_three :
+    Connect.connect .ok = (Connect.owned, .ok) ∧ (Connect.newClient true .ok).2.2 = true ∧
+    Connect.held Connect.owned = true := by decide
+
+/-- clientImpl.Close on what a successful connect owns closes each of the three exactly once. -/
+theorem close_releases_three :
+    Connect.close Connect.owned = { pkt := some 1, tr := some 1, conn := some 1, nilDeref := false } := by decide
+
+/-- … and however often Close is called, and on whatever it is called, nothing stays held. -/
+theorem close_releases_any (r : Connect.R3) : Connect.held (Connect.close r) = false := held_close r
 
 /-! ### one_live — at EVERY reachable state, not only quiescent ones -/
 
@@ -152,6 +215,7 @@ theorem next_call_reconnects (cfg : Cfg) (s : St) (g : Nat)
     (hs : s.started = true) (hc : s.closed = false) (hn : s.client = none) (hg : s.pc g = .idle) :
     step cfg s (.callBegin g .ok) =
       { s with client := some s.nextId, nextId := s.nextId + 1, sock := upd s.sock s.nextId (some true),
+               res := upd s.res s.nextId (some Connect.owned),
                count := s.count + 1, pc := upd s.pc g (.using s.nextId),
                log := .connected (s.count + 1) :: .new s.nextId :: .cfg :: s.log } := by
   simp [step, hs, hg, hc, hn, reconnect_ok_none s hn, enter]
@@ -302,12 +366,99 @@ theorem failed_start_leaks_nothing (tr : List Label) (a : Att) (ha : a ≠ .ok)
   exact hq x (hs x hx)
 
 -- non-vacuity (failed_start_leaks_nothing): nothing handed out yet — initially, and after a failed eager start
-example : (run fixed init []).started = false ∧ (run fixed init [.start false .connErr]).started = false ∧
-    Att.connErr ≠ .ok := by decide
+example : (run fixed init []).started = false ∧ (run fixed init [.start false .authErr]).started = false ∧
+    Att.authErr ≠ .ok := by decide
 -- non-vacuity: a failing attempt is really made (configFunc is evaluated, a socket is obtained and closed)
-example : cfgCount (run fixed init [.start true .ok, .callBegin 0 .connErr]).log = 1 ∧
-    (run fixed init [.start true .ok, .callBegin 0 .connErr]).nextId = 1 ∧
-    (run fixed init [.start true .ok, .callBegin 0 .connErr]).sock 0 = some false := by decide
+example : cfgCount (run fixed init [.start true .ok, .callBegin 0 .authErr]).log = 1 ∧
+    (run fixed init [.start true .ok, .callBegin 0 .authErr]).nextId = 1 ∧
+    (run fixed init [.start true .ok, .callBegin 0 .authErr]).sock 0 = some false := by decide
+
+/-- failed_reconnect_leaks_nothing at the level of connect()'s resources: when a call really makes
+    an attempt (handed out, not closed, no current client, caller idle) and the attempt fails, then
+    either no socket was obtained (configFunc / verifyAndFill / ConnFactory.New failed) or the socket
+    obtained is entered in the census with exactly the resources connect()'s failing exit leaves
+    behind — packet conn and transport closed exactly once, the QUIC conn closed exactly once if
+    DialEarly had returned one, no nil dereference — and is therefore recorded as closed. The census
+    bit is computed from connect()'s run (`Connect.held`), not assumed. -/
+theorem failed_reconnect_releases_resources (tr : List Label) (g : Nat) (a : Att) (ha : a ≠ .ok)
+    (hs : (run fixed init tr).started = true) (hc : (run fixed init tr).closed = false)
+    (hn : (run fixed init tr).client = none) (hg : (run fixed init tr).pc g = .idle) :
+    let s := run fixed init tr
+    let s' := step fixed s (.callBegin g a)
+    (s'.nextId = s.nextId ∧ s'.res = s.res ∧ (a = .cfgErr ∨ a = .badCfg ∨ a = .newErr)) ∨
+    (s'.nextId = s.nextId + 1 ∧ a.failsWithSocket ∧
+      s'.res s.nextId = some (Connect.connect a.exit).1 ∧
+      (Connect.connect a.exit).1.pkt = some 1 ∧ (Connect.connect a.exit).1.tr = some 1 ∧
+      (Connect.connect a.exit).1.conn.once = true ∧ (Connect.connect a.exit).1.nilDeref = false ∧
+      s'.sock s.nextId = some (Connect.held (Connect.connect a.exit).1) ∧ s'.sock s.nextId = some false) := by
+  intro s s'
+  have hs' : s.started = true := hs
+  have hc' : s.closed = false := hc
+  have hn' : s.client = none := hn
+  have hg' : s.pc g = .idle := hg
+  have e : s' = { (attempt s a).1 with log := .ret g ((attempt s a).2.getD .ok) :: (attempt s a).1.log } := by
+    show step fixed s (.callBegin g a) = _
+    have herr : (attempt s a).2 ≠ none := fun h => ha ((attempt_err s a).mp h)
+    cases hat : attempt s a with
+    | mk s1 e1 =>
+      rw [hat] at herr
+      cases e1 with
+      | none => exact absurd rfl herr
+      | some e1 => simp [step, hs', hg', hc', hn', reconnect, closeOld_none s hn', hat]
+  rcases att_cases a with h | h | h | h | h
+  · left; subst h; rw [e, attempt_cfgErr]; exact ⟨rfl, rfl, Or.inl rfl⟩
+  · left; subst h; rw [e, attempt_badCfg]; exact ⟨rfl, rfl, Or.inr (Or.inl rfl)⟩
+  · left; subst h; rw [e, attempt_newErr]; exact ⟨rfl, rfl, Or.inr (Or.inr rfl)⟩
+  · right
+    rw [e, attempt_failSock s a h]
+    have hcf := connect_fail_clean a h
+    have hk : (Connect.connect a.exit).1.pkt = some 1 ∧ (Connect.connect a.exit).1.tr = some 1 ∧
+        (Connect.connect a.exit).1.conn.once = true := by
+      rcases h with h | h | h <;> subst h <;> decide
+    refine ⟨rfl, h, by simp, hk.1, hk.2.1, hk.2.2, hcf.1, by simp [hcf.2.2.2], by simp⟩
+  · exact absurd h ha
+
+-- non-vacuity: after a lazy start a call that fails in the handshake / at authentication is such an attempt
+example : (run fixed init [.start true .ok]).started = true ∧ (run fixed init [.start true .ok]).closed = false ∧
+    (run fixed init [.start true .ok]).client = none ∧ (run fixed init [.start true .ok]).pc 0 = .idle ∧
+    Att.dialErr ≠ .ok ∧ Att.rtErr ≠ .ok ∧ Att.authErr ≠ .ok := by decide
+
+/-- one_live at the level of the three resources, at EVERY reachable state: behind every socket the
+    factory ever returned stands a recorded run of connect()/Close with no nil dereference; an open
+    socket's client owns packet conn, transport and QUIC conn, all unclosed; for every other socket
+    each of the three was either never acquired or has been closed. The census bit of the base
+    model is exactly `Connect.held`. -/
+theorem one_live_resources (tr : List Label) :
+    let s := run fixed init tr
+    ∀ x, x ∈ newSocks s.log → ∃ r, s.res x = some r ∧ s.sock x = some (Connect.held r) ∧ r.nilDeref = false ∧
+      (s.sock x = some true → r = Connect.owned ∧ s.client = some x) ∧
+      (s.client ≠ some x → r.pkt.released = true ∧ r.tr.released = true ∧ r.conn.released = true) := by
+  intro s x hx
+  obtain ⟨h, hr⟩ := inv_rinv_run tr init inv_init rinv_init
+  rw [h.socks] at hx
+  have hlt : x < s.nextId := by simpa using hx
+  have hu := h.used x hlt
+  have hl := hr.link x
+  cases hres : s.res x with
+  | none => rw [hres] at hl; exact absurd hl hu
+  | some r =>
+    rw [hres] at hl
+    simp only [Option.map_some] at hl
+    refine ⟨r, rfl, hl, (hr.clean x r hres).1, ?_, ?_⟩
+    · intro ho
+      have := hr.owns x ho
+      rw [hres] at this
+      exact ⟨Option.some.inj this, h.live x ho⟩
+    · intro hne
+      have hf : Connect.held r = false := by
+        cases hh : Connect.held r with
+        | false => rfl
+        | true => rw [hh] at hl; exact absurd (h.live x hl) hne
+      cases r with
+      | mk p t c nd =>
+        cases p with
+        | none => cases t <;> cases c <;> simp_all [Connect.held, Connect.Rsrc.released]
+        | some n => cases t <;> cases c <;> simp_all [Connect.held, Connect.Rsrc.released]
 
 /-! ### the count -/
 
